@@ -10,17 +10,17 @@ from vlib import log, Inconclusive, VERIF, SPEC, HARNESS
 # clause prefixes that decide each property in the core trace specification
 CORE = {
     'C01': dict(prefixes=['C01_'], mc_q=[('MC_c01_q', 300)], mc_t=[('MC_c01_t', 1500)],
-                fam_q=[('core', 240), ('dup', 4)], fam_t=[('core', 4000), ('dup', 16)]),
+                fam_q=[('core', 200), ('merge', 80), ('dup', 4)], fam_t=[('core', 4000), ('merge', 1500), ('memmerge', 500), ('dup', 16)]),
     'C02': dict(prefixes=['C02_'], mc_q=[('MC_durable_q', 300)], mc_t=[('MC_durable', 1500)],
-                fam_q=[('images', 32), ('core', 80)], fam_t=[('images', 400), ('crash2', 200), ('core', 1000)]),
+                fam_q=[('images', 32), ('memmerge', 48), ('core', 64)], fam_t=[('images', 400), ('memmerge', 600), ('crash2', 200), ('core', 1000)]),
     'C03': dict(prefixes=['C03_'], mc_q=[('MC_crash2_q', 300), ('MC_durable_q', 300)], mc_t=[('MC_durable', 1500), ('MC_crash2_t', 1500)],
-                fam_q=[('images', 24), ('crash2', 24)], fam_t=[('images', 400), ('crash2', 400)]),
+                fam_q=[('images', 24), ('crash2', 24), ('memmerge', 32)], fam_t=[('images', 400), ('crash2', 400), ('memmerge', 600)]),
     'C04': dict(prefixes=['C04_'], mc_q=[('MC_readers_q', 300)], mc_t=[('MC_readers_t', 1500)],
                 fam_q=[('readers', 240)], fam_t=[('readers', 4000)]),
     'C05': dict(prefixes=['C05_', 'C01_RootIsAbstract', 'C01_reader'], mc_q=[('MC_linear_q', 300)], mc_t=[('MC_linear_t', 1500)],
                 fam_q=[('conc', 240), ('dfs2', 1)], fam_t=[('conc', 4000), ('dfs2', 3)]),
     'C06': dict(prefixes=['C06_'], mc_q=[('MC_merge_q', 300)], mc_t=[('MC_merge_t', 1500)],
-                fam_q=[('merge', 240)], fam_t=[('merge', 4000)]),
+                fam_q=[('merge', 200), ('memmerge', 64)], fam_t=[('merge', 4000), ('memmerge', 1000)]),
     'C11': dict(prefixes=['C11_'], mc_q=[('MC_files_q', 300)], mc_t=[('MC_files_t', 1500)],
                 fam_q=[('files', 240)], fam_t=[('files', 4000)]),
     'C14': dict(prefixes=['C14_', 'C02_', 'C03_', 'C01_RootIsAbstract', 'C04_'], mc_q=[('MC_faults_q', 300)], mc_t=[('MC_faults_t', 1500)],
@@ -62,7 +62,7 @@ def core_check(prop, tier, seed, sd, t0):
         out, logs = vlib.drive(binp, sd, fam, n, seed, timeout=900 if tier == 'quick' else 3000)
         for shard, rc, o in logs:
             if rc != 0:
-                driver_deaths.append((fam, shard, rc, o[-6000:]))
+                driver_deaths.append((fam, shard, rc, o[:4000] + '\n...\n' + o[-4000:]))
         runs = vlib.load_runs(out)
         # (3) TLC decides every recorded execution
         for res in vlib.validate_all(sd, out):
